@@ -8,7 +8,7 @@ from . import _w5ts as W
 
 ID = 'C12'
 TITLE = 'df_fillna/nona fill or drop exactly the missing cells, arrays and pandas alike'
-LEAN_FILES = ['Basic', 'TSBasic', 'Fill', 'FillDriver', 'FillLemmas', 'FillIndep', 'C12']
+LEAN_FILES = ['Basic', 'TSBasic', 'Fill', 'FillDriver', 'FillLemmas', 'FillIndep', 'FillRows', 'C12']
 RULE = ('distinct protocol lines (object, method list, limit) on which the implementation returned a value and the input '
         'holds at least one NaN and one non-NaN cell')
 TRUSTED = ['correspondence harness (pv.engine, pv.proto, pv.props._w5ts) and generators of pv.props.c12',
@@ -116,7 +116,7 @@ def make_obj(rng, kind, n):
         if kind == 's':
             return pd.Series(col, index(rng, n), dtype=float), pk
         return np.array(col, dtype=float), pk
-    w = rng.choice([2, 2, 3]) if kind in ('df', 'a2') else 1
+    w = rng.choice([1, 2, 2, 3]) if kind in ('df', 'a2') else 1   # one-column frames / (n,1) arrays take their own branches in the code
     cols, pks = [], []
     for j in range(w):
         mask, pk = pattern(rng, n)
@@ -170,6 +170,27 @@ def generate(rng, tier):
                     yield dict(tag='exh-s/%s' % m.split(':')[0], lines=['(fill fillna-s %s (M1 %s) %s)' % (W.enc_series(s, S), m, lim)])
                     if tier != 'quick' or rng.random() < 0.3:
                         yield dict(tag='exh-a1/%s' % m.split(':')[0], lines=['(fill fillna-a1 %s (M %s) %s)' % (W.enc_arr(a, S), m, lim)])
+                    if n <= (4 if tier == 'quick' else 6) and (tier != 'quick' or rng.random() < 0.3):
+                        # the same column as a one-column DataFrame and as an (n,1) array (the model identifies them with the Series)
+                        df1 = pd.DataFrame({'a': np.array(col, dtype=float)}, index=s.index, columns=['a'], dtype=float)
+                        yield dict(tag='exh-df1/%s' % m.split(':')[0], lines=['(fill fillna-df %s (M %s) %s)' % (W.enc_frame(df1, S), m, lim)])
+                        yield dict(tag='exh-a21/%s' % m.split(':')[0], lines=['(fill fillna-a2 %s (M %s) %s)' % (W.enc_arr(a.reshape(n, 1), S), m, lim)])
+    # all NaN masks of small 2-column frames x every PAIR of methods (the list clause on 2-d objects, exhaustively)
+    top2 = 2 if tier == 'quick' else 3
+    pair = ['ffill', 'bfill', 'ffill_na', 'ffill_0', 'fnna', 'nona', 'c:6']
+    for n in range(1, top2 + 1):
+        for mask in itertools.product([False, True], repeat=2 * n):
+            cols = [[nan if mask[j * n + i] else float(10 * j + i + 1) for i in range(n)] for j in range(2)]
+            df2 = pd.DataFrame({'a': np.array(cols[0], dtype=float), 'b': np.array(cols[1], dtype=float)},
+                               index=pd.DatetimeIndex([W.day(2 * i) for i in range(n)]), columns=['a', 'b'], dtype=float)
+            for m1 in pair:
+                for m2 in pair:
+                    if tier == 'quick' and rng.random() < 0.5:
+                        continue
+                    lim = rng.choice(['N', 'I:1'])
+                    yield dict(tag='exh-df2/pair', lines=['(fill fillna-df %s (M %s %s) %s)' % (W.enc_frame(df2, S), m1, m2, lim)])
+                    if rng.random() < 0.3:
+                        yield dict(tag='exh-a22/pair', lines=['(fill fillna-a2 %s (M %s %s) %s)' % (W.enc_arr(df2.values, S), m1, m2, lim)])
 
 
 # ------------------------------------------------------------------ implementation runner
